@@ -38,6 +38,9 @@ use convert::convert_fraction_p32;
 
 pub(crate) mod macros;
 
+#[cfg(softposit_verif)]
+pub mod verif_trace;
+
 pub mod polynom;
 pub use polynom::Polynom;
 
